@@ -89,6 +89,13 @@ type scenario struct {
 	SkipSortDocs bool `json:"skip_sort_docs,omitempty"`
 	// BulkDocs: documents per ingested bulk (0 = 256); one bulk is one docs block of the active fraction
 	BulkDocs int `json:"bulk_docs,omitempty"`
+	// Writers > 1: the bulks of every fraction are sent by that many goroutines at the same time
+	Writers int `json:"writers,omitempty"`
+	// CrashLeftover: after a fraction is sealed its unsorted .docs and its .meta file are put back next to the
+	// .sdocs / .index files - the state a kill between the index rename and Active.Release leaves behind
+	CrashLeftover bool `json:"crash_leftover,omitempty"`
+	// Restart: the store is stopped and opened again (loader, replay of the active fraction) before the requests
+	Restart bool `json:"restart,omitempty"`
 }
 
 // docBytes is the document ingested under (mid, rid) with the given size (>= 2): valid JSON, content unique per
@@ -137,31 +144,39 @@ type store struct {
 	names []string // fraction names in scenario order
 }
 
-func newStore(sc *scenario) (*store, error) {
-	dir, err := os.MkdirTemp("", "verif-c04-")
-	if err != nil {
-		return nil, err
-	}
+func openStore(dir string, sc *scenario, replay bool) (*fracmanager.FracManager, *storeapi.GrpcV1, error) {
 	fm := fracmanager.NewFracManager(&fracmanager.Config{
 		FracSize:     1 << 40,
 		TotalSize:    1 << 42,
-		ShouldReplay: false,
+		ShouldReplay: replay,
 		DataDir:      dir,
 		SealParams:   frac.SealParams{DocBlockSize: sc.DocBlockSize},
 		Fraction:     frac.Config{SkipSortDocs: sc.SkipSortDocs},
 	})
 	if err := fm.Load(context.Background()); err != nil {
-		return nil, err
+		return nil, nil, err
 	}
 	fm.Start()
 	mp, err := mappingprovider.New("", mappingprovider.WithMapping(seq.TestMapping))
 	if err != nil {
-		return nil, err
+		return nil, nil, err
 	}
 	g := storeapi.NewGrpcV1(storeapi.APIConfig{
 		Bulk:   storeapi.BulkConfig{RequestsLimit: consts.DefaultBulkRequestsLimit},
 		Search: storeapi.SearchConfig{WorkersCount: 1, FractionsPerIteration: 1, RequestsLimit: consts.DefaultSearchRequestsLimit, Async: fracmanager.AsyncSearcherConfig{DataDir: filepath.Join(dir, "async")}},
 	}, fm, mp)
+	return fm, g, nil
+}
+
+func newStore(sc *scenario) (*store, error) {
+	dir, err := os.MkdirTemp("", "verif-c04-")
+	if err != nil {
+		return nil, err
+	}
+	fm, g, err := openStore(dir, sc, false)
+	if err != nil {
+		return nil, err
+	}
 	st := &store{dir: dir, fm: fm, g: g}
 	ctx := context.Background()
 	bulkDocs := sc.BulkDocs
@@ -171,15 +186,52 @@ func newStore(sc *scenario) (*store, error) {
 	for k, f := range sc.Fracs {
 		// ingest in bulks of at most 256 docs (several doc blocks per fraction), big docs one per bulk
 		dp := frac.NewDocProvider()
+		var parked []*pb.BulkRequest // bulks waiting for the concurrent writers
 		flush := func() error {
 			if dp.DocCount == 0 {
 				return nil
 			}
 			req := &pb.BulkRequest{Count: int64(dp.DocCount)}
-			req.Docs, req.Metas = dp.Provide()
-			_, err := g.Bulk(ctx, req)
+			d, m := dp.Provide()
+			req.Docs, req.Metas = append([]byte{}, d...), append([]byte{}, m...)
 			dp.TryReset()
+			if sc.Writers > 1 {
+				parked = append(parked, req)
+				return nil
+			}
+			_, err := g.Bulk(ctx, req)
 			return err
+		}
+		sendParked := func() error {
+			if len(parked) == 0 {
+				return nil
+			}
+			var wg sync.WaitGroup
+			errs := make(chan error, len(parked))
+			next := make(chan *pb.BulkRequest)
+			for w := 0; w < sc.Writers; w++ {
+				wg.Add(1)
+				go func() {
+					defer wg.Done()
+					for rq := range next {
+						if _, err := g.Bulk(ctx, rq); err != nil {
+							errs <- err
+						}
+					}
+				}()
+			}
+			for _, rq := range parked {
+				next <- rq
+			}
+			close(next)
+			wg.Wait()
+			parked = nil
+			select {
+			case err := <-errs:
+				return err
+			default:
+				return nil
+			}
 		}
 		pending := 0
 		normal := f.Docs
@@ -200,6 +252,9 @@ func newStore(sc *scenario) (*store, error) {
 		if err := flush(); err != nil {
 			return nil, err
 		}
+		if err := sendParked(); err != nil {
+			return nil, err
+		}
 		if len(normal) < len(f.Docs) { // the partly retried bulk
 			fm.WaitIdle()
 			retry := append(append([]docSpec{}, f.Docs[f.RetryFrom:]...), normal[:min(f.RetryDup, len(normal))]...)
@@ -209,13 +264,36 @@ func newStore(sc *scenario) (*store, error) {
 			if err := flush(); err != nil {
 				return nil, err
 			}
+			if err := sendParked(); err != nil {
+				return nil, err
+			}
 		}
 		fm.WaitIdle()
-		st.names = append(st.names, fm.Active().Info().Name())
+		name := fm.Active().Info().Name()
+		st.names = append(st.names, name)
 		if f.Sealed || k < len(sc.Fracs)-1 {
+			var docsCopy, metaCopy []byte
+			if sc.CrashLeftover {
+				docsCopy, _ = os.ReadFile(filepath.Join(dir, name+consts.DocsFileSuffix))
+				metaCopy, _ = os.ReadFile(filepath.Join(dir, name+consts.MetaFileSuffix))
+			}
 			fm.SealForcedForTests()
 			fm.WaitIdle()
+			if _, err := os.Stat(filepath.Join(dir, name+consts.SdocsFileSuffix)); sc.CrashLeftover && err == nil && docsCopy != nil {
+				// as if the process had been killed right after the index rename: the active fraction's files are still there
+				os.WriteFile(filepath.Join(dir, name+consts.DocsFileSuffix), docsCopy, 0o644)
+				os.WriteFile(filepath.Join(dir, name+consts.MetaFileSuffix), metaCopy, 0o644)
+			}
 		}
+	}
+	if sc.Restart {
+		st.fm.Stop()
+		fm2, g2, err := openStore(dir, sc, true)
+		if err != nil {
+			return nil, fmt.Errorf("restart: %w", err)
+		}
+		fm2.WaitIdle()
+		st.fm, st.g = fm2, g2
 	}
 	return st, nil
 }
@@ -410,10 +488,10 @@ func childMain(path string) {
 
 type childResult struct {
 	lateFound, lateMissing int
-	res     map[int]string // request index -> "ok" | "error: ..." | "mismatch: ..."
-	died    int            // request index during which the process died, -1 if it finished
-	stderr  string
-	timeout bool
+	res                    map[int]string // request index -> "ok" | "error: ..." | "mismatch: ..."
+	died                   int            // request index during which the process died, -1 if it finished
+	stderr                 string
+	timeout                bool
 }
 
 func runChild(sc *scenario, skip []int, timeout time.Duration) childResult {
@@ -482,7 +560,6 @@ func runChild(sc *scenario, skip []int, timeout time.Duration) childResult {
 }
 
 // ---------------------------------------------------------------- generators
-
 
 // genFracs builds k fractions with disjoint or touching MID ranges; RIDs leave room below and above every stored ID.
 func genFracs(r *vh.RNG, k, docsPer int, sizes func() int, lastActive bool) []fracSpec {
@@ -914,6 +991,39 @@ func genScenario(r *vh.RNG, name string, shape int, thorough bool) scenario {
 			}
 			sc.Reqs = append(sc.Reqs, rq)
 		}
+	case 10: // concurrent bulks into the active fraction, then a restart while it is still active (Replay), then fetch
+		sc.Fracs = genFracs(r, 1+r.Intn(2), 60, mixed, true)
+		sc.BulkDocs = 2 + r.Intn(5)
+		sc.Writers = 6 + r.Intn(3)
+		sc.Restart = true
+		act := len(sc.Fracs) - 1
+		all := request{Class: "active-replayed-after-concurrent-bulks all-ids hints=0"}
+		for _, d := range sc.Fracs[act].Docs {
+			all.IDs = append(all.IDs, reqID{MID: d.MID, RID: d.RID, Hint: -1})
+		}
+		sc.Reqs = append(sc.Reqs, all)
+		for i := 0; i < 6; i++ {
+			rq := genRequest(r, sc.Fracs, 1+r.Intn(20), []int{0, 20, 50}[r.Intn(3)], absentClasses, r.Intn(3) == 0, orders[r.Intn(3)])
+			rq.Class = "active-replayed-after-concurrent-bulks " + rq.Class
+			sc.Reqs = append(sc.Reqs, rq)
+		}
+	case 11: // a kill between the index rename and the removal of the active files, then a restart through the loader
+		sc.Fracs = genFracs(r, 1+r.Intn(3), 25, mixed, r.Bool())
+		sc.BulkDocs = 3 + r.Intn(6)
+		sc.CrashLeftover = true
+		sc.Restart = true
+		for k := range sc.Fracs {
+			all := request{Class: "sealed-with-crash-leftover all-ids hints=0"}
+			for _, d := range sc.Fracs[k].Docs {
+				all.IDs = append(all.IDs, reqID{MID: d.MID, RID: d.RID, Hint: -1})
+			}
+			sc.Reqs = append(sc.Reqs, all)
+		}
+		for i := 0; i < 6; i++ {
+			rq := genRequest(r, sc.Fracs, 1+r.Intn(12), []int{0, 20, 50}[r.Intn(3)], absentClasses, r.Intn(3) == 0, orders[r.Intn(3)])
+			rq.Class = "sealed-with-crash-leftover " + rq.Class
+			sc.Reqs = append(sc.Reqs, rq)
+		}
 	case 4: // 100k IDs, mostly absent, over one mid-sized fraction pair
 		sc.Fracs = genFracs(r, 2, 3000, func() int { return 200 + r.Intn(200) }, false)
 		sc.Reqs = append(sc.Reqs, genRequest(r, sc.Fracs, 100000, 95, []string{"inside", "above-all", "below-all"}, false, "random"))
@@ -924,6 +1034,9 @@ func genScenario(r *vh.RNG, name string, shape int, thorough bool) scenario {
 		sc.DocBlockSize = 0 // the sealed fraction keeps all the tiny documents in one block
 	}
 	sc.SkipSortDocs = r.Intn(3) == 0 // the non-default sealing mode: the sealed fraction reads the active fraction's docs file
+	if shape == 11 {
+		sc.SkipSortDocs = false // the leftover state needs the sorted docs file
+	}
 	return sc
 }
 
@@ -950,7 +1063,7 @@ func classify(res string, stderr string, died, timeout bool) (site, class string
 }
 
 func scenarioLine(sc *scenario, only int) string {
-	c := scenario{Name: sc.Name, Fracs: sc.Fracs, DocBlockSize: sc.DocBlockSize, SkipSortDocs: sc.SkipSortDocs, BulkDocs: sc.BulkDocs}
+	c := scenario{Name: sc.Name, Fracs: sc.Fracs, DocBlockSize: sc.DocBlockSize, SkipSortDocs: sc.SkipSortDocs, BulkDocs: sc.BulkDocs, Writers: sc.Writers, CrashLeftover: sc.CrashLeftover, Restart: sc.Restart}
 	if only >= 0 {
 		c.Reqs = []request{sc.Reqs[only]}
 	} else {
@@ -983,7 +1096,7 @@ func minimise(sc scenario, site, class string, budget int) scenario {
 				}
 			}
 		}
-		return &scenario{Name: sc.Name, Fracs: fracs, DocBlockSize: sc.DocBlockSize, SkipSortDocs: sc.SkipSortDocs, BulkDocs: sc.BulkDocs, Reqs: []request{{Class: sc.Reqs[0].Class, IDs: ids, Late: late}}}
+		return &scenario{Name: sc.Name, Fracs: fracs, DocBlockSize: sc.DocBlockSize, SkipSortDocs: sc.SkipSortDocs, BulkDocs: sc.BulkDocs, Writers: sc.Writers, CrashLeftover: sc.CrashLeftover, Restart: sc.Restart, Reqs: []request{{Class: sc.Reqs[0].Class, IDs: ids, Late: late}}}
 	}
 	// 1. drop requested IDs
 	ids := sc.Reqs[0].IDs
@@ -1413,7 +1526,6 @@ func sealedChannels(o vh.Opts, r *vh.RNG, rep *vh.Report) (*vh.Channel, *vh.Chan
 	return fl, le
 }
 
-
 // ---------------------------------------------------------------- small function channels
 
 func docPosChannels(o vh.Opts, r *vh.RNG) (*vh.Channel, *vh.Channel, *vh.Channel) {
@@ -1556,8 +1668,8 @@ func plus[T ~int | ~uint64](xs []T) string {
 // fakeIndex is a fetch index whose documents say where they were read from.
 type fakeIndex struct{ pos []seq.DocPos }
 
-func (f *fakeIndex) GetBlocksOffsets(b uint32) uint64  { return uint64(b) * 1000 }
-func (f *fakeIndex) GetDocPos([]seq.ID) []seq.DocPos   { return f.pos }
+func (f *fakeIndex) GetBlocksOffsets(b uint32) uint64 { return uint64(b) * 1000 }
+func (f *fakeIndex) GetDocPos([]seq.ID) []seq.DocPos  { return f.pos }
 func (f *fakeIndex) ReadDocs(blockOffset uint64, docOffsets []uint64) ([][]byte, error) {
 	res := make([][]byte, len(docOffsets))
 	for i, o := range docOffsets {
@@ -1719,10 +1831,10 @@ func filterStatsChannel(o vh.Opts, r *vh.RNG) *vh.Channel {
 // fakeFrac: a fraction that is only its Info (name, From, To, DocsTotal) - what groupIDsByFraction looks at.
 type fakeFrac struct{ info *frac.Info }
 
-func (f *fakeFrac) Info() *frac.Info                   { return f.info }
-func (f *fakeFrac) IsIntersecting(a, b seq.MID) bool   { return f.info.IsIntersecting(a, b) }
-func (f *fakeFrac) Contains(m seq.MID) bool            { return f.info.IsIntersecting(m, m) }
-func (f *fakeFrac) Suicide()                           {}
+func (f *fakeFrac) Info() *frac.Info                 { return f.info }
+func (f *fakeFrac) IsIntersecting(a, b seq.MID) bool { return f.info.IsIntersecting(a, b) }
+func (f *fakeFrac) Contains(m seq.MID) bool          { return f.info.IsIntersecting(m, m) }
+func (f *fakeFrac) Suicide()                         {}
 func (f *fakeFrac) DataProvider(context.Context) (frac.DataProvider, func()) {
 	return frac.EmptyDataProvider{}, func() {}
 }
@@ -2037,10 +2149,10 @@ func main() {
 	}
 	if run("fetch.stream") {
 		r := rng.Fork()
-		shapes := []int{0, 0, 0, 1, 1, 2, 3, 5, 6, 7, 7, 8, 8, 9, 9}
+		shapes := []int{0, 0, 0, 1, 1, 2, 3, 5, 6, 7, 7, 8, 8, 9, 9, 10, 10, 10, 11, 11}
 		if o.Thorough() {
 			shapes = nil
-			for sh, n := range []int{60, 20, 8, 6, 2, 12, 6, 16, 16, 8} {
+			for sh, n := range []int{60, 20, 8, 6, 2, 12, 6, 16, 16, 8, 20, 12} {
 				for i := 0; i < n; i++ {
 					shapes = append(shapes, sh)
 				}
